@@ -447,16 +447,16 @@ func c12Table(r *Run, ff []gts.Feature, tag string) {
 	if p2 {
 		r.fail(Failure{Oracle: "(b) Repair is idempotent (second Repair panics)", Op: line, Got: "PANIC", Want: got})
 	} else if !c12TableEq(out2, out) {
-		// only a flattened join (written back unsorted) is known to break idempotence when sort.Sort
-		// is the (stable) insertion sort.  Beyond 12 members sort.Sort is not stable: when fused
-		// complemented members (K12B; their inner Join can move the fused location to the right of
-		// where it was sorted) leave the written-back class unsorted, the second Repair may return
-		// ties in another order than the first did and fuse / absorb other neighbours
-		// (Gts.C12.idempotent_with_full_refuted: idempotence is not a consequence of a correct sort)
+		// what is known to break idempotence is a class that is written back unsorted: a flattened
+		// join (K12G), or fused complemented members (K12B: the inner Join, always with force, can
+		// move the fused location to the right of where it was sorted;
+		// Gts.C12.idempotent_compl_refuted).  Beyond 12 members sort.Sort is not stable, and the
+		// second Repair may then also return ties elsewhere in the class in another order than the
+		// first did (Gts.C12.idempotent_with_full_refuted).  On plain tables idempotence is proved.
 		f := Failure{Oracle: "(b) Repair is idempotent", Op: line, Got: c12EncTable(out2), Want: got}
 		if hasJoin && !proved {
 			f.Finding = "K12G"
-		} else if big && !proved && c12HasComplClass(ff) {
+		} else if !proved && c12HasComplClass(ff) {
 			f.Finding = "K12B"
 		}
 		r.fail(f)
@@ -864,6 +864,11 @@ func propC12(r *Run) {
 			g(gts.Joined{gts.Range(6, 15), gts.Between(6)})},
 		[]gts.Feature{g(gts.Range(0, 5)), g(gts.Range(6, 15)), g(gts.Between(6))},
 		[]gts.Feature{g(gts.Ambiguous{Start: 0, End: 5}), g(gts.Ambiguous{Start: 5, End: 9})},
+		// idempotent_compl_refuted
+		[]gts.Feature{g(gts.Complemented{Location: gts.Joined{gts.Range(1, 3), gts.PartialRange(3, 6, gts.Partial5), gts.PartialRange(6, 7, gts.Partial5)}}),
+			g(gts.PartialRange(1, 4, gts.Partial3)),
+			g(gts.Complemented{Location: gts.Joined{gts.Range(1, 3), gts.PartialRange(3, 6, gts.Partial5), gts.PartialRange(6, 7, gts.Partial5)}}),
+			g(gts.Complemented{Location: gts.Ambiguous{Start: 2, End: 3}})},
 		[]gts.Feature{g(gts.Range(0, 3)), g(gts.Range(3, 6)), g(gts.PartialRange(6, 8, gts.Partial3)),
 			g(gts.PartialRange(9, 12, gts.Partial5)), g(gts.PartialRange(1, 2, gts.PartialBoth)), g(gts.PartialRange(1, 2, gts.PartialBoth))},
 		[]gts.Feature{g(gts.Complemented{Location: gts.Range(0, 3)}), g(gts.Complemented{Location: gts.Range(5, 8)}),
